@@ -268,6 +268,23 @@ static int check_indexed(AsmContext *asm_context, struct _operand *operand)
 {
   uint8_t post_byte = operand->index_reg << 5;
 
+  if (operand->type == OPERAND_INDEX_OFFSET_PC ||
+      operand->type == OPERAND_INDEX_OFFSET_REG ||
+      operand->type == OPERAND_INDEX_INDIRECT_ADDRESS)
+  {
+    if (check_range(asm_context, "Offset", operand->value, -32768, 0xffff) == -1)
+    {
+      return -1;
+    }
+
+    // Offsets are 16 bit two's complement: 0x8000 to 0xffff written as
+    // unsigned numbers are -32768 to -1 (and may fit a shorter form).
+    if (operand->type != OPERAND_INDEX_INDIRECT_ADDRESS && operand->value > 32767)
+    {
+      operand->value -= 65536;
+    }
+  }
+
   if (operand->type == OPERAND_INDEX_OFFSET_PC)
   {
     post_byte = 0x8c;
